@@ -405,6 +405,18 @@ TEMPLATES = [
     ('stmt-whole', 'stmt', 'if 1:\n    {W}'),
     ('missing-list', 'stmt', 'if 1:\n    {Z}\n    post()'),
     ('const', 'stmt', 'done = 1'),
+    # slots inside string / bytes constants (judged by the reference sweep on the re-parsed result; not in the model)
+    ('str-one', 'expr', 'log({E}, "{sE}")'),
+    ('str-line-mixed', 'expr', 'p("{sE} ## ", {E}, "{sE2} <-- x", {E2})'),
+    ('str-same-const', 'expr', 'p("{sE} ## {sE2} ## {sE}")'),
+    ('str-same-const', 'expr', 'p("{sE2} ## {sE}", "{sE} <-- {sE2}", {E})'),
+    ('str-whole', 'expr', 'log({W}, "{sW} ## {sW}")'),
+    ('str-bytes', 'expr', 'p(b"{sE} ## {sE2}", {E}, b"<-- {sE}")'),
+    ('str-multibyte', 'expr', 'p("\u00e9\u2192 {sE} \u2190\u00f1 {sE2} \u65e5", "{sE} \u2192 {sE}")'),
+    ('str-multiline', 'expr', 'p("""{sE} ##\n  {sE2} ## {sE}""", "{sE2} ## {sE}")'),
+    ('str-missing', 'expr', 'p("{sZ} ## {sE} ## {sZ}", "{sE}")'),
+    ('str-in-stmt', 'stmt', 'y = p("{sE} ## {sE2}", {E}, "<-- {sE}")'),
+    ('str-in-stmt', 'stmt', 'if 1:\n    note("{sE} ## ", "{sE2} ## {sE}")\n    {ANY}'),
 ]
 
 
@@ -431,6 +443,13 @@ def make_template(rng, fmt, tagkinds, cat):
         return slot(t, letter)
 
     out = fmt
+    for ph in ('{sE2}', '{sE}'):
+        while ph in out:
+            c = [t for t in by.get('E', []) if t or cat == 'expr']     # the whole match only if it is an expression
+            if not c:
+                return None
+            out = out.replace(ph, slot(rng.choice(c)), 1)
+    out = out.replace('{sW}', slot('')).replace('{sZ}', slot('zz'))
     for ph, kinds in (('{E2}', ['E']), ('{E}', ['E']), ('{ES}', ['ES']), ('{SX}', ['S', 'SS']), ('{SS}', ['SS']),
                       ('{S}', ['S']), ('{ANY2}', ['S', 'SS', 'E']), ('{ANY}', ['S', 'SS', 'E'])):
         while ph in out:
@@ -446,7 +465,7 @@ def make_template(rng, fmt, tagkinds, cat):
     return out
 
 
-EXPR_ATOMS = ['a', 'b', 'c', 'x', 'y', 'n', '1', '2', '"s"', 'None']
+EXPR_ATOMS = ['a', 'b', 'c', 'x', 'y', 'n', '1', '2', '"s"', 'None', 'a', 'b', 'x', 'longer_name', '\u00e9', '\u00f1u']
 
 
 class PGen:
@@ -553,7 +572,7 @@ def setting_name(s):
             f'{"loop" if s["loop"] is not False else "once"}')
 
 
-def gen_jobs(rng, n):
+def gen_jobs(rng, n, string_slots=True):
     jobs = []
     tries = 0
     while len(jobs) < n and tries < n * 30:
@@ -564,7 +583,7 @@ def gen_jobs(rng, n):
         if not pats:
             continue
         shape, cat, spec, tagkinds = rng.choice(pats)
-        cands = [t for t in TEMPLATES if t[1] == cat]
+        cands = [t for t in TEMPLATES if t[1] == cat and (string_slots or not t[0].startswith('str-'))]
         placement, _, fmt = rng.choice(cands)
         tm = make_template(rng, fmt, tagkinds, cat)
         if tm is None:
@@ -603,6 +622,14 @@ DIRECTED = [
     _d(_IFS, 'view', 'stmt', _IFPAT, 'module', 'pre(__FST_t)\n__FST_b', on='leave'),
     _d(_IFS, 'view', 'stmt', _IFPAT, 'module', 'pre(__FST_t)\n__FST_b', nested=True),        # C18-F1 witness
     _d(_IFS, 'view', 'stmt', _IFPAT, 'root', '__FST_b', loop=True),
+    _d('x = a\n', 'node', 'expr', 'MName(ctx=Load)', 'str-whole', 'log(__FST_, "__FST_")'),
+    _d('print(rec.name, idx)\nlog(rec.name, idx)\nprint(total, rec.items[idx])  # trailing\n', 'tags', 'expr',
+       'MCall(func=MName("print"), args=[M(a=...), M(b=...)])', 'str-line-mixed',
+       'print("__FST_a =", __FST_a, "__FST_b =", __FST_b)'),
+    _d('short = [a, b]\nlong_ = [c, d, e, f, g]  # five\nother = [h, i, j, k, l]\n', 'qslice', 'expr',
+       'MList(elts=[M(a=...), M(b=...), MQSTAR(tail=...)], ctx=Load)', 'chain-list', '[__FST_a + __FST_b, __FST_tail]', loop=3),
+    _d('short = [a, b]\nlong_ = [c, d, e, f, g]  # five\nother = [h, i, j, k, l]\n', 'qslice', 'expr',
+       'MList(elts=[M(a=...), M(b=...), MQSTAR(tail=...)], ctx=Load)', 'chain-list', '[__FST_a + __FST_b, __FST_tail]', loop=2, on='leave'),
     _d(_IFS, 'node', 'stmt', 'MIf', 'root-whole', '__FST_', nested=True),
     _d('if a:\n    a_true()\nelse:\n    a_false()\n    fail()\n', 'view', 'stmt',
        'MIf(test=M(t=...), body=M(b=...), orelse=M(e=...))', 'stmt-slot-two',
@@ -613,3 +640,81 @@ DIRECTED = [
     _d(_WITH, 'multi', 'stmt', _WPAT, 'stmt-slot', 'with __FST_oi, __FST_ii:\n    __FST_ib\n    __FST_ob', on='leave'),
     _d(_WITH, 'multi', 'stmt', _WPAT, 'stmt-slot', 'with __FST_oi, __FST_ii:\n    __FST_ib\n    __FST_ob', nested=True, loop=2),
 ]
+
+
+# ---------------------------------------------------------------------------------------------------------------------
+# loop chains: pattern/template pairs whose rewrite still matches a bounded number of times (the chain length depends on
+# the matched node), over programs with several match locations of different chain lengths
+
+CHAINS = [
+    # (shape, cat, pattern, template, construct generator name)
+    ('qslice', 'expr', 'MList(elts=[M(a=...), M(b=...), MQSTAR(tail=...)], ctx=Load)', '[__FST_a + __FST_b, __FST_tail]', 'list'),
+    ('qslice', 'expr', 'MCall(func=M(f=MName), args=[M(x=...), MQSTAR(r=...)])', '__FST_f(__FST_r)', 'call'),
+    ('qslice', 'expr', 'MTuple(elts=[M(a=...), MQPLUS(r=...)], ctx=Load)', '(__FST_r,)', 'tuple'),
+    ('multi', 'expr', 'MAttribute(value=M(v=MAttribute(value=M(vv=...))), ctx=Load)', '__FST_vv.z', 'attr'),
+    ('multi', 'expr', 'MBinOp(left=M(l=MBinOp(left=M(ll=...), right=M(lr=...))), right=M(r=...))',
+     '__FST_ll + (__FST_lr - __FST_r)', 'binop'),
+    ('qslice', 'stmt', 'MIf(test=M(t=...), body=[M(first=...), MQPLUS(rest=...)])', 'if __FST_t:\n    __FST_rest', 'if'),
+    ('qslice', 'stmt', 'MWhile(test=M(t=...), body=[MQPLUS(init=...), M(last=...)])', 'while __FST_t:\n    __FST_init', 'while'),
+]
+
+
+def _chain_construct(rng, kind, n):
+    at = lambda: rng.choice(['a', 'b', 'c', 'd', 'e', 'k', '1', '2'])
+    if kind == 'list':
+        return '[' + ', '.join(at() for _ in range(n)) + ']'
+    if kind == 'call':
+        return rng.choice(['f', 'g', 'h']) + '(' + ', '.join(at() for _ in range(n)) + ')'
+    if kind == 'tuple':
+        return '(' + ', '.join(at() for _ in range(n)) + (',' if n == 1 else '') + ')'
+    if kind == 'attr':
+        return 'o' + ''.join('.' + rng.choice('pqrs') for _ in range(n))
+    if kind == 'binop':
+        e = at()
+        for _ in range(n):
+            e = f'({e} * {at()})'
+        return e
+    raise KeyError(kind)
+
+
+def chain_program(rng, kind):
+    """several match locations with different chain lengths (some stop at once, some never match)"""
+    k = rng.randint(2, 5)
+    lens = [rng.choice([0, 1, 2, 2, 3, 4, 5, 6]) for _ in range(k)]
+    lines = []
+    if kind in ('if', 'while'):
+        for n in lens:
+            body = [rng.choice(['a', 'b()', 'x = 1', 'y', 'pass']) for _ in range(max(n, 1))]
+            head = ('if ' if kind == 'if' else 'while ') + rng.choice(['a', 'b', 'c']) + ':'
+            lines.append(head + '\n' + '\n'.join('    ' + b for b in body))
+            if rng.random() < 0.3:
+                lines.append(rng.choice(['z = 0', 'k()']))
+        return '\n'.join(lines)
+    for i, n in enumerate(lens):
+        c = _chain_construct(rng, kind, n)
+        form = rng.randrange(4)
+        if form == 0:
+            lines.append(f'v{i} = {c}')
+        elif form == 1:
+            lines.append(f'use({c}, 0)' if kind != 'call' else f'w = [{c}, 0]')
+        elif form == 2:
+            lines.append(f'if t{i}:\n    v = {c}')
+        else:
+            lines.append(f'{c}  # c{i}' if kind not in ('tuple',) else f'r = {c}')
+    return '\n'.join(lines)
+
+
+def gen_chain_jobs(rng, n, allow_nested=True):
+    jobs = []
+    for _ in range(n):
+        shape, cat, pat, tmpl, kind = rng.choice(CHAINS)
+        src = chain_program(rng, kind)
+        try:
+            ast.parse(src)
+        except SyntaxError:
+            continue
+        st = {'nested': allow_nested and rng.random() < 0.2, 'on': 'leave' if rng.random() < 0.25 else 'enter',
+              'count': rng.choice([0, 0, 0, 2]), 'loop': rng.choice([1, 2, 2, 3, 3, 4, 6, True])}
+        jobs.append({'src': src, 'shape': shape, 'cat': cat, 'pat': pat, 'placement': 'chain-' + kind, 'tmpl': tmpl,
+                     'set': st})
+    return jobs
